@@ -4,6 +4,10 @@
 
 // Initial hash bucket size
 #define INIT_SIZE 16
+#ifdef CHIBICC_VERIF_INIT_SIZE
+#undef INIT_SIZE
+#define INIT_SIZE CHIBICC_VERIF_INIT_SIZE
+#endif
 
 // Rehash if the usage exceeds 70%.
 #define HIGH_WATERMARK 70
@@ -123,6 +127,11 @@ void *hashmap_get(HashMap *map, char *key) {
 
 void *hashmap_get2(HashMap *map, char *key, int keylen) {
   HashEntry *ent = get_entry(map, key, keylen);
+#ifdef CHIBICC_VERIF
+  if (vtrace_on())
+    vtrace("\"e\":\"hm\",\"op\":\"get\",\"m\":\"%p\",\"k\":\"%s\",\"r\":\"%p\",\"used\":%d,\"cap\":%d",
+           (void *)map, vtrace_str(key, keylen), ent ? ent->val : NULL, map->used, map->capacity);
+#endif
   return ent ? ent->val : NULL;
 }
 
@@ -133,6 +142,11 @@ void hashmap_put(HashMap *map, char *key, void *val) {
 void hashmap_put2(HashMap *map, char *key, int keylen, void *val) {
   HashEntry *ent = get_or_insert_entry(map, key, keylen);
   ent->val = val;
+#ifdef CHIBICC_VERIF
+  if (vtrace_on())
+    vtrace("\"e\":\"hm\",\"op\":\"put\",\"m\":\"%p\",\"k\":\"%s\",\"r\":\"%p\",\"used\":%d,\"cap\":%d",
+           (void *)map, vtrace_str(key, keylen), val, map->used, map->capacity);
+#endif
 }
 
 void hashmap_delete(HashMap *map, char *key) {
@@ -143,6 +157,11 @@ void hashmap_delete2(HashMap *map, char *key, int keylen) {
   HashEntry *ent = get_entry(map, key, keylen);
   if (ent)
     ent->key = TOMBSTONE;
+#ifdef CHIBICC_VERIF
+  if (vtrace_on())
+    vtrace("\"e\":\"hm\",\"op\":\"del\",\"m\":\"%p\",\"k\":\"%s\",\"r\":\"%p\",\"used\":%d,\"cap\":%d",
+           (void *)map, vtrace_str(key, keylen), NULL, map->used, map->capacity);
+#endif
 }
 
 void hashmap_test(void) {
